@@ -1849,6 +1849,38 @@ def _byte_quantity(fb, g, depth=0):
     return verdicts[0]
 
 
+def _part_columns_covered(fb, R, S, use_ids):
+    """A part that is itself made of columns (DenseNodes): its byte estimate must mention every column the part's serialisation
+    writes whose element count is not bounded by the per-block object limit, i.e. every column that does not grow by exactly one
+    element per added object; and it must scale with the number of objects (mention at least one one-per-object column)."""
+    for p in S.all_nodes():
+        if p.get('k') != 'call' or p.get('recv') is None or not (use_ids & set(S.subtree(p['recv']))) or not p.get('u'):
+            continue
+        g = next((h for h in fb.by_usr.get(p['u'], []) if h.has_cfg), None)
+        if g is None or not g.cls or not g.cls.startswith('osmium::'):
+            continue
+        cols = {}
+        for e in codec.pbf_emissions(fb):
+            if e.how == 'add_packed' and e.column is not None and e.fn.cls == g.cls:
+                cols[e.column[0]] = (e.column[1], getattr(e, 'pushes', []))
+        if not cols:
+            continue
+        mentioned = {n.get('q') for n in g.all_nodes() if n.get('k') == 'member' and n.get('field') and g.is_this_member(n['id'])}
+        one_per_object = []
+        for q, (name, pushes) in sorted(cols.items()):
+            fixed = [(f, v, c) for (f, v, c) in pushes if not any(f.in_range(c, l['b'], l['e']) for l in f.loops)]
+            bounded = len(pushes) == 1 and len(fixed) == 1
+            if bounded:
+                one_per_object.append(q)
+                continue
+            R.check(q in mentioned, 'pbf-block-size-counts-every-serialised-part', '%s#%s' % (g.q, name), g.site,
+                    '%s is written into the blob by %s and grows by a data-dependent number of elements per object (%d push sites, %d in a loop), '
+                    'so the per-block object limit does not bound it; %s does not count it: a block whose %s alone exceeds the blob size '
+                    'limit is written without error' % (name, g.cls, len(pushes), len(pushes) - len(fixed), g.q, name))
+        R.check(any(q in mentioned for q in one_per_object), 'pbf-block-size-counts-every-serialised-part', '%s#per-object' % g.q, g.site,
+                '%s does not depend on the number of objects stored (none of the one-element-per-object columns is counted)' % g.q)
+
+
 def block_size_rules(fb, R):
     """PrimitiveBlock::size() -- the estimate can_add() compares with max_used_blob_size -- has a summand for every member of the
     block that the serialisation writes into the blob, and every summand is a number of bytes."""
@@ -1946,6 +1978,8 @@ def block_size_rules(fb, R):
         if verdict is None or verdict[0] is None:
             R.broken('%s: cannot decide whether the summand for %s is a number of bytes (%s)' % (S.q, fd['name'], verdict[1] if verdict else 'no call on the member'))
             continue
+        if verdict[0]:
+            _part_columns_covered(fb, R, S, use_ids)
         R.check(verdict[0], 'pbf-block-size-counts-every-serialised-part', key, S0.site,
                 'the summand of %s for %s is not a number of bytes: %s; can_add() compares the sum with max_used_blob_size (bytes)' % (S.q, fd['name'], verdict[1]),
                 detail={'why': verdict[1]})
@@ -1994,7 +2028,7 @@ def run(ctx):
         ('xml-self-closing-only-when-empty', 4),         # XMLOutputBlock::node, way, relation, changeset
         ('value-range-bound-agrees', 10),                # pbf changeset x2, o5m uid + version, opl_parse_int max/min, string_to_ulong,
                                                          # parse_timestamp, string_to_location_coordinate max/min
-        ('pbf-block-size-counts-every-serialised-part', 3),  # group data, string table, dense nodes
+        ('pbf-block-size-counts-every-serialised-part', 5),  # group data, string table, dense nodes; DenseNodes::size: m_tags, per-object
         ('dense-column-gates-agree', 10),        # the 10 vector members of DenseNodes
         ('dense-columns-parallel', 10),
         ('info-field-gated-by-own-option', 16),  # 6 Info + 6 DenseInfo fields, 3 Info + 1 DenseInfo containers
